@@ -33,9 +33,10 @@
 -/
 import BtcVerif.Proofs.HeapAll
 import BtcVerif.Proofs.ValueFrame
+import BtcVerif.Proofs.HeapX8
 
 namespace BtcVerif.C09
-open BtcVerif BtcVerif.Model.Heap BtcVerif.Spec.ValueSem
+open BtcVerif BtcVerif.Model.Heap BtcVerif.Spec.ValueSem BtcVerif.Spec.AliasSem
 
 /-- the initial heap (only the shared default arguments) satisfies the invariant -/
 theorem inv_init : Inv Model.Heap.init := inv_init'
@@ -267,6 +268,100 @@ theorem copy_unaffected (pre post : List Op) {r : Nat} {e : Entry}
   simp only [Spec.ValueSem.run, Spec.ValueSem.step, observe, lookup, h2, Option.bind_eq_bind, Option.bind_some,
     Val.getM, hs]
   simp
+
+/-! ### the extended catalogue: arguments may be REFERENCES to existing objects (audit F4)
+
+  `Spec.AliasSem.OpX` adds to the catalogue `obj.attr = <existing object>`, `lst.append(<existing object>)`,
+  `lst[i] = <existing object>`, `CMutableTransaction(<existing vin>, <existing vout>, …)`,
+  `CMutableTxIn(<existing outpoint>, …)` and the `witness=None` constructor path (an immutable
+  `CTxWitness` over a Python list).  After such steps objects legitimately share state, so separation
+  is no longer a state invariant.  `InvX` (Proofs/HeapX1.lean) keeps what stays true of every reachable
+  heap: (i') closure of immutability (modulo that list, which no operation writes), (ii) correctness of
+  every filled cache, classes, one-step typing of references, the shared default objects.
+  Clause (iii) is restated as in DESIGN §6 — a property of the copy operations: `copy_fresh_ext`. -/
+
+theorem inv_init_ext : InvX Model.Heap.init.heap := invx_init
+
+/-- every operation of the extended catalogue preserves the invariant -/
+theorem inv_step_ext {s : St} (hinv : InvX s.heap) (op : OpX) : InvX (Model.HeapX.stepX s op).1.heap :=
+  invx_step hinv op
+
+theorem inv_reachable_ext (ops : List OpX) : InvX (Model.HeapX.runX Model.Heap.init ops).1.heap :=
+  invx_run ops invx_init
+
+/-- (ii) under arbitrary user-made aliasing: a filled cache slot of an immutable object (outpoint,
+    input, output, witness, transaction, header, block) equals the identifier recomputed from the
+    object's current serialisation -/
+theorem cache_correct_ext {h : Heap} (hinv : InvX h) {a : Addr} {o : Obj} (ho : h[a]? = some o)
+    (hm : o.isMut = false) :
+    (∀ c, o.cHash = some c → ∃ v, absVal h a = some v ∧ identOf v = .ok c) ∧
+    (∀ c, o.cPy = some c → ∃ v, absVal h a = some v ∧ pyHashOf v = .ok c) :=
+  hinv.cacheOK a o ho hm
+
+/-- (i') everything reachable from an immutable object is immutable — or the Python list behind a
+    default `CTxWitness`, whose items are immutable and which no operation of the catalogue writes -/
+theorem immutable_reach_ext {h : Heap} (hinv : InvX h) {f : Nat} {a : Addr} {t : ATree} {o : Obj}
+    (hu : unfoldA f h a = some t) (ho : h[a]? = some o) (hm : o.isMut = false) :
+    ∀ x ∈ addrs t, ∃ ox : Obj, h[x]? = some ox ∧ (ox.isMut = false ∨ ox.sc.kind = 10) :=
+  imm_reachX hinv.immClosed hinv.kindOK hinv.typed hu (fun o' ho' => by rw [ho] at ho'; cases ho'; exact Or.inl hm)
+
+/-- **(iii) as in DESIGN §6**: no mutable object is reachable from two roots where one was created by
+    a copy operation from the other.  After `CMutableX.from_x(src)` every writable object reachable
+    from the copy was allocated by the copy operation (address beyond the old heap), and the old heap
+    is untouched — whatever sharing the caller had set up before.  (For `CX.from_x`, the immutable
+    snapshot, `immutable_reach_ext` says that nothing writable is reachable at all.) -/
+theorem copy_fresh_ext {h : Heap} (hinv : InvX h) {a : Addr} {ta : ATree} {p : Plan}
+    (hu : unfoldA D h a = some ta) (hp : planClone true D h a = some p) :
+    InvX (allocPlan h p).1 ∧ (∃ e, (allocPlan h p).1 = h ++ e) ∧
+    ∃ t', unfoldA D (allocPlan h p).1 (allocPlan h p).2 = some t' ∧
+      ∀ (x : Addr) (ox : Obj), x ∈ addrs t' → (allocPlan h p).1[x]? = some ox → ox.isMut = true →
+        ox.sc.kind ≠ 10 → h.length ≤ x :=
+  copy_fresh hinv hu hp
+
+/-- `RawSignatureHash` under arbitrary aliasing: every existing object is left exactly as it was -/
+theorem sighash_preserves_heap_ext {s : St} (hinv : InvX s.heap) (r : Nat) (sub : Bytes) (i ht : Nat) :
+    ∃ e, (Model.HeapX.stepX s (.base (.sighash r sub i ht))).1.heap = s.heap ++ e := by
+  show ∃ e, (Model.Heap.step s (.sighash r sub i ht)).1.heap = s.heap ++ e
+  simp only [Model.Heap.step]
+  (repeat' split) <;> first
+    | (rename_i hr; exact (rawSigHash_ext hinv hr).2)
+    | exact ⟨[], (List.append_nil _).symm⟩
+
+/-- `VerifyScript` (any number of `RawSignatureHash` calls) under arbitrary aliasing -/
+theorem verify_preserves_heap_ext {s : St} (hinv : InvX s.heap) (r i : Nat) (calls : List (Bytes × Nat)) :
+    ∃ e, (Model.HeapX.stepX s (.base (.verify r i calls))).1.heap = s.heap ++ e := by
+  show ∃ e, (Model.Heap.step s (.verify r i calls)).1.heap = s.heap ++ e
+  simp only [Model.Heap.step]
+  (repeat' split) <;> first
+    | (rename_i hr; exact (rawSigHashes_ext hinv calls hinv ⟨[], by simp⟩ hr).2)
+    | exact ⟨[], (List.append_nil _).symm⟩
+
+/-- `GetHash()` at any address of a heap satisfying `InvX` — mutable or immutable class, cache filled
+    or not, shared or not — is the identifier of the object's current value -/
+theorem heap_ident_eq_value_ext {h : Heap} (hinv : InvX h) {a : Addr} {o : Obj} {v : Val}
+    (ho : h[a]? = some o) (hv : absVal h a = some v) : ∃ h', getHashAt h a = some (h', identOf v) := by
+  simp only [getHashAt, ho, hv, Option.bind_eq_bind, Option.bind_some]
+  by_cases hm : o.isMut = true
+  · exact ⟨h, by simp [hm]⟩
+  · have hm' : o.isMut = false := by simpa using hm
+    simp only [hm', Bool.false_eq_true, if_false]
+    cases hc : o.cHash with
+    | some c =>
+      obtain ⟨v', hv', hi⟩ := (hinv.cacheOK a o ho hm').1 c hc
+      rw [hv] at hv'; cases hv'
+      exact ⟨h, by simp [hi]⟩
+    | none =>
+      cases hid : identOf v with
+      | ok c => exact ⟨_, rfl⟩
+      | error e => exact ⟨_, rfl⟩
+
+/-- storing a reference into an attribute of an instance of an immutable class raises `AttributeError` -/
+theorem immutable_setref_rejected_ext (s : St) (t src : Target) (slot : Nat) {x y cur : Addr} {o : Obj}
+    (ht : s.target t = some x) (hs : s.target src = some y) (ho : s.heap[x]? = some o)
+    (hseq : o.sc.isSeq = false) (hcur : o.refs[slot]? = some cur)
+    (hk : Model.HeapX.kindAt s.heap cur = Model.HeapX.kindAt s.heap y) (hm : o.isMut = false) :
+    Model.HeapX.stepX s (.assignRef t slot src) = (s.skip, .err attributeError) := by
+  simp [Model.HeapX.stepX, ht, hs, ho, hseq, hcur, hk, hm]
 
 /-! ### non-vacuity: concrete histories -/
 
